@@ -164,7 +164,9 @@ func judgeSize(res *core.Result, carrier string, v reflect.Value, rule string, l
 			more := strings.Contains(cl.Text, "more than")
 			lowBad := (rule == "to" || rule == "ge") && m.Cmp(l) < 0 || (rule == "oto" || rule == "gt") && m.Cmp(l) <= 0
 			highBad := (rule == "to" || rule == "le") && m.Cmp(h) > 0 || (rule == "oto" || rule == "lt") && m.Cmp(h) >= 0
-			if less == more || (less && !lowBad) || (more && !highBad) {
+			// only a clause that names exactly one side, and the wrong one, is judged (the wording
+			// itself is not part of the property)
+			if less != more && ((less && !lowBad) || (more && !highBad)) {
 				report("direction-word", "wrong-side")
 				return
 			}
